@@ -50,6 +50,8 @@ def gen_send():
         prints.append(("err" + e, "%d", "(int) MHD_ERR_%s_" % e))
     for s in STATES:
         prints.append(("st" + s, "%d", "(int) MHD_CONNECTION_" + s))
+    prints.append(("termCompletedOk", "%d", "(int) MHD_REQUEST_TERMINATED_COMPLETED_OK"))
+    prints.append(("termWithError", "%d", "(int) MHD_REQUEST_TERMINATED_WITH_ERROR"))
     for e in ERRNOS:
         prints.append(("no" + e, "%d", "(int) " + e))
         for cn, mac in ERR_CLASSES:
@@ -91,6 +93,9 @@ def gen_send():
     L.append("/-- enum MHD_CONNECTION_STATE values of the reply-side states (the code compares them with `<`) -/")
     for s in STATES:
         L.append("def st%s : Nat := %s" % ("".join(w.capitalize() for w in s.split("_")), v["st" + s]))
+    L.append("/-- enum MHD_RequestTerminationCode values the reply path reports (microhttpd.h) -/")
+    for k in ("termCompletedOk", "termWithError"):
+        L.append("def %s : Nat := %s" % (k, v[k]))
     L.append("/-- errno values the fault plan can inject, with the classification macros of mhd_sockets.h evaluated on each -/")
     L.append("inductive Errno where")
     for e in ERRNOS:
@@ -128,6 +133,9 @@ def hx(b):
 DIGEST_HDR = b'Authorization: Digest username="joe", realm="r", nonce="abc", uri="/a", response="00"\r\n'
 
 
+BASIC_HDR = b"Authorization: Basic am9lOnNlY3JldA==\r\n"
+
+
 class Req:
     """one request of a scenario: the bytes the client sends, the upload body the handler must
     see, and the handler behaviour"""
@@ -148,12 +156,15 @@ class Req:
 
 
 class Scenario:
-    def __init__(self, name, resps, reqs, mode="select", mem=0, split=None, note="", poolfail=False):
+    def __init__(self, name, resps, reqs, mode="select", mem=0, split=None, note="", poolfail=False, readerr=False, cfgx=""):
         self.name, self.resps, self.reqs, self.mode, self.mem, self.split, self.note = name, resps, reqs, mode, mem, split, note
+        self.cfgx = cfgx             # further daemon options (harness `cfg` words)
         self.poolfail = poolfail     # the connection's memory pool is too small on purpose: the reply is cut short
+        self.readerr = readerr       # the content reader reports MHD_CONTENT_READER_END_WITH_ERROR mid-body: cut short + closed
 
     def script(self, faults=(), alloc_fail=None, count_allocs=False):
-        L = ["case " + self.name, "cfg mode=%s spipe=1%s" % (self.mode, (" mem=%d" % self.mem) if self.mem else ""), "start"]
+        L = ["case " + self.name, "cfg mode=%s spipe=1%s%s" % (self.mode, (" mem=%d" % self.mem) if self.mem else "",
+                                                              (" " + self.cfgx) if self.cfgx else ""), "start"]
         for rid, spec in self.resps.items():
             L.append("resp %d %s" % (rid, spec))
         for i, rq in enumerate(self.reqs):
@@ -198,6 +209,15 @@ def corpus(tier):
     S.append(Scenario("http10-cb", {1: "kind=cb-unknown size=900 cbmax=400"}, [Req(ver="1.0")]))
     S.append(Scenario("chunked-static", {1: "kind=static size=600 h=%s:%s" % (b"Transfer-Encoding".hex(), b"chunked".hex())}, [Req()]))
     S.append(Scenario("footer", {1: "kind=cb-unknown size=500 cbmax=300 f=%s:%s" % (b"X-Sum".hex(), b"abc".hex())}, [Req()]))
+    # content reader failing in the middle of / at the start of the body (MHD_CONTENT_READER_END_WITH_ERROR):
+    # plain body with Content-Length, chunked body, close-delimited HTTP/1.0 body
+    S.append(Scenario("cb-err-known", {1: "kind=cb-known size=900 cbmax=400 cberr=500"}, [Req()], readerr=True))
+    S.append(Scenario("cb-err-chunked", {1: "kind=cb-unknown size=900 cbmax=400 cberr=500"}, [Req()], readerr=True))
+    S.append(Scenario("cb-err-first", {1: "kind=cb-known size=300 cbmax=100 cberr=0"}, [Req()], readerr=True))
+    S.append(Scenario("cb-err-http10", {1: "kind=cb-unknown size=900 cbmax=400 cberr=500"}, [Req(ver="1.0")], readerr=True))
+    S.append(Scenario("cb-err-pipelined", {1: "kind=cb-unknown size=600 cbmax=250 cberr=300", 2: "kind=static size=40"},
+                      [Req(beh="f=c l=r1"), Req(beh="f=c l=r2")], readerr=True,
+                      note="the second (pipelined) request must never be answered"))
     up = bytes((i * 11 + 3) % 251 for i in range(120))
     S.append(Scenario("post-cl", {1: "kind=static size=30"}, [Req(method="POST", body=up, beh="f=c u=all l=r1")]))
     S.append(Scenario("post-cl-partial", {1: "kind=static size=30"}, [Req(method="POST", body=up, beh="f=c u=7,all l=r1")]))
@@ -214,6 +234,13 @@ def corpus(tier):
                       [Req(method="POST", body=up, beh="f=c u=all l=r1"), Req(beh="f=c l=r2")]))
     S.append(Scenario("early-reply", {1: "kind=static size=50"}, [Req(method="POST", body=up, beh="f=r1")]))
     S.append(Scenario("dauth", {1: "kind=static size=20"}, [Req(beh="f=c l=r1 da=1", extra=DIGEST_HDR)]))
+    # allocation sites of the reply path that the scenarios above do not reach: the per-IP connection table
+    # (MHD_ip_limit_add + tsearch node), an application-set "Connection" header (add_response_header_connection),
+    # the basic-auth information API
+    S.append(Scenario("perip", {1: "kind=static size=20"}, [Req()], cfgx="perip=3"))
+    S.append(Scenario("conn-hdr", {1: "kind=static size=30 h=%s:%s" % (b"Connection".hex(), b"close".hex())}, [Req()]))
+    S.append(Scenario("conn-hdr2", {1: "kind=cb-known size=300 cbmax=100 h=%s:%s h=%s:%s" % (b"Connection".hex(), b"foo".hex(), b"Connection".hex(), b"close".hex())}, [Req()]))
+    S.append(Scenario("bauth", {1: "kind=static size=20"}, [Req(beh="f=c l=r1 ba=1", extra=BASIC_HDR)]))
     S.append(Scenario("iovec-smallpool", {1: "kind=iovec size=400 iovn=100"}, [Req()], mem=1024, poolfail=True,
                       note="the copy of the iovec (1600 bytes) does not fit the 1024-byte connection pool"))
     S.append(Scenario("chunked-smallpool", {1: "kind=cb-unknown size=300 cbmax=50"}, [Req()], mem=512))
@@ -309,70 +336,88 @@ class CaseLog:
         self.stopped = False
         self.resp_hdr = []       # results of MHD_add_response_header/footer calls of the application
         self.uri_logs = 0
+        self.completions = []    # (r or '?', code, line index) in log order
+        self.resp_refs = []      # (rid, reference count, when) — 1 = only the application's own reference is left
+        self.reader_err = []     # indices of "reader … -> err" lines
+        self.alloc_site = None   # (library function whose allocation failed, libc entry point)
         last_handler = None
         for i, ln in enumerate(lines):
-            w = ln.split()
-            if not w:
-                continue
-            k = w[0]
-            d = kvs(w[1:])
-            if k == "wire" and d.get("c") == "0":
-                self.wire += bytes.fromhex(w[2]) if w[2] != "-" else b""
-            elif k == "sys":
-                m = re.search(r"-> (E?-?\d+) inj=(\S+)", ln)
-                d["ret"], d["inj"], d["idx"] = m.group(1), m.group(2), i
-                self.sys.append(d)
-            elif k == "handler":
-                up = b"" if d.get("up", "-") == "-" else bytes.fromhex(d["up"])
-                r = int(d["r"])
-                self.handlers.append((r, d["phase"], up))
-                if d["phase"] == "first":
-                    self.first.append(r)
-                last_handler = (r, up)
-            elif k == "took" and last_handler is not None:
-                n = int(d["n"])
-                self.took[last_handler[0]] = self.took.get(last_handler[0], b"") + last_handler[1][:n]
-            elif k == "completed":
-                r = d.get("r", "?")
-                self.completed.setdefault(r, []).append((d.get("code"), i))
-            elif k == "conn-start":
-                self.conn_start = i
-            elif k == "conn-close":
-                self.conn_close_at = i
-            elif k == "settled":
-                self.settled.append((i, int(d["rounds"]), int(d["quiet"])))
-            elif k == "wst":
-                self.final_wst = d
-            elif k == "eof":
-                self.eof = True
-            elif k == "rst":
-                self.rst = True
-            elif k == "fired":
-                self.fired = {a: int(b) for a, b in d.items()}
-            elif k == "allocs":
-                self.allocs = (int(d["n"]), int(d["fired"]))
-            elif k == "fault-unfired":
-                self.unfired.append(ln)
-            elif k in ("protocol-error", "unstable", "bad-op", "fdset-failed", "start-failed"):
-                self.bad.append(ln)
-            elif k == "reader" and ln.endswith("-> 0"):
-                self.reader0.append(i)
-            elif k == "queued":
-                self.queued.append(ln)
-            elif k == "resp-made":
-                self.made[d["rid"]] = self.made.get(d["rid"], 0) + 1
-            elif k == "free-cb-total":
-                self.freed[d["rid"]] = int(d["n"])
-            elif k == "arrive":
-                self.arrive = ln.split("->")[1].strip()
-            elif k in ("dauth-info", "dauth-user"):
-                self.dauth.append(ln)
-            elif k == "stopped":
-                self.stopped = True
-            elif k == "resp-hdr":
-                self.resp_hdr.append(ln)
-            elif k == "uri-log":
-                self.uri_logs += 1
+            try:
+                last_handler = self._line(i, ln, last_handler)
+            except (ValueError, IndexError, KeyError, AttributeError):
+                pass     # a line cut short by a dying process: the run is reported through `stopped` / stderr
+
+    def _line(self, i, ln, last_handler):
+        w = ln.split()
+        if not w:
+            return last_handler
+        k = w[0]
+        d = kvs(w[1:])
+        if k == "wire" and d.get("c") == "0":
+            self.wire += bytes.fromhex(w[2]) if w[2] != "-" else b""
+        elif k == "sys":
+            m = re.search(r"-> (E?-?\d+) inj=(\S+)", ln)
+            d["ret"], d["inj"], d["idx"] = m.group(1), m.group(2), i
+            self.sys.append(d)
+        elif k == "handler":
+            up = b"" if d.get("up", "-") == "-" else bytes.fromhex(d["up"])
+            r = int(d["r"])
+            self.handlers.append((r, d["phase"], up))
+            if d["phase"] == "first":
+                self.first.append(r)
+            last_handler = (r, up)
+        elif k == "took" and last_handler is not None:
+            n = int(d["n"])
+            self.took[last_handler[0]] = self.took.get(last_handler[0], b"") + last_handler[1][:n]
+        elif k == "completed":
+            r = d.get("r", "?")
+            self.completed.setdefault(r, []).append((d.get("code"), i))
+            self.completions.append((r, d.get("code"), i))
+        elif k == "conn-start":
+            self.conn_start = i
+        elif k == "conn-close":
+            self.conn_close_at = i
+        elif k == "settled":
+            self.settled.append((i, int(d["rounds"]), int(d["quiet"])))
+        elif k == "wst":
+            self.final_wst = d
+        elif k == "eof":
+            self.eof = True
+        elif k == "rst":
+            self.rst = True
+        elif k == "fired":
+            self.fired = {a: int(b) for a, b in d.items()}
+        elif k == "allocs":
+            self.allocs = (int(d["n"]), int(d["fired"]))
+            if int(d["fired"]):
+                self.alloc_site = (d.get("site", "?"), d.get("via", "?"))
+        elif k == "fault-unfired":
+            self.unfired.append(ln)
+        elif k in ("protocol-error", "unstable", "bad-op", "fdset-failed", "start-failed"):
+            self.bad.append(ln)
+        elif k == "reader" and ln.endswith("-> 0"):
+            self.reader0.append(i)
+        elif k == "reader" and ln.endswith("-> err"):
+            self.reader_err.append(i)
+        elif k == "resp-ref":
+            self.resp_refs.append((d["rid"], int(d["rc"]), d.get("at", "?")))
+        elif k == "queued":
+            self.queued.append(ln)
+        elif k == "resp-made":
+            self.made[d["rid"]] = self.made.get(d["rid"], 0) + 1
+        elif k == "free-cb-total":
+            self.freed[d["rid"]] = int(d["n"])
+        elif k == "arrive":
+            self.arrive = ln.split("->")[1].strip()
+        elif k in ("dauth-info", "dauth-user", "bauth-info"):
+            self.dauth.append(ln)
+        elif k == "stopped":
+            self.stopped = True
+        elif k == "resp-hdr":
+            self.resp_hdr.append(ln)
+        elif k == "uri-log":
+            self.uri_logs += 1
+        return last_handler
 
     def closed_before_stop(self):
         last_settle = self.settled[-1][0] if self.settled else len(self.lines)
@@ -461,6 +506,12 @@ def oracle(sc, plan, ref, log, stderr_txt):
         if ("kind=cb-" in spec or "kind=freecb" in spec) and log.freed.get(rid, 0) != n:
             bad.append(("free callback count differs from the number of response objects created",
                         "rid=%s created %d times, free callback ran %d times" % (rid, n, log.freed.get(rid, 0))))
+    # the application keeps its own reference: once the connection is gone (and at the latest when the daemon has
+    # stopped) exactly that one reference is left — the connection dropped its reference exactly once
+    for rid, rc, at in log.resp_refs:
+        if rc != 1 and (at == "stop" or log.conn_close_at is not None):
+            bad.append(("response reference count is not N after the connection released it (released twice, or never)",
+                        "rid=%s reference_count=%d at %s (1 = only the application's reference left)" % (rid, rc, at)))
     if log.arrive == "0" and not (log.eof or log.rst):
         bad.append(("refused connection: the socket was not closed by the library", ""))
     if log.arrive == "1" and log.conn_start is not None and log.conn_close_at is None:
@@ -508,8 +559,9 @@ def oracle(sc, plan, ref, log, stderr_txt):
 
 # --------------------------------------------------------------------------- model script
 
-def parse_replies(stream, reqs):
-    """split the fault-free client stream into replies: (header bytes, body bytes on the wire)"""
+def parse_replies(stream, reqs, lenient=False):
+    """split the fault-free client stream into replies: (header bytes, body bytes on the wire);
+    `lenient`: the last reply may be cut short (scenarios whose content reader fails on purpose)"""
     out, pos, ri = [], 0, 0
     while pos < len(stream):
         e = stream.find(b"\r\n\r\n", pos)
@@ -532,6 +584,9 @@ def parse_replies(stream, reqs):
             p = rest_start
             while True:
                 le = stream.find(b"\r\n", p)
+                if lenient and (le < 0 or p >= len(stream)):
+                    p = len(stream)
+                    break
                 n = int(stream[p:le].split(b";")[0], 16)
                 p = le + 2 + n + 2 if n else stream.find(b"\r\n\r\n", le) + 4
                 if n == 0:
@@ -582,9 +637,26 @@ def reference_content(sc, ref):
             bad.append(("pool allocation failure did not close the connection", ""))
         return bad
     try:
-        reps = [r for r in parse_replies(ref.wire, sc.reqs) if not r["interim"]]
+        reps = [r for r in parse_replies(ref.wire, sc.reqs, sc.readerr) if not r["interim"]]
     except Exception as exn:
         return [("fault-free reply stream is not well-formed HTTP", repr(exn))]
+    if sc.readerr:
+        # the reader fails on purpose: a cut-short first reply, nothing after it, connection closed, completion WITH_ERROR
+        if not ref.closed_before_stop():
+            bad.append(("content reader error did not close the connection", ""))
+        if len(reps) != 1:
+            bad.append(("content reader error: N replies on the wire instead of one cut-short reply", "%d" % len(reps)))
+        for rep in reps[:1]:
+            spec = resp_spec(sc, rep["req"])
+            want = body_of(spec["rid"], int(spec.get("size", 5)))
+            got = rep["wire_body"]
+            if rep.get("chunked"):
+                got, _ = dechunk(got)
+            if not want.startswith(got) or len(got) >= len(want):
+                bad.append(("content reader error: the bytes sent before the error are not a strict prefix of the content", "%d bytes" % len(got)))
+        if [c for _, c, _ in ref.completions][:1] != ["1"]:
+            bad.append(("content reader error: completion code is not WITH_ERROR", str(ref.completions)))
+        return bad
     for rep in reps:
         spec = resp_spec(sc, rep["req"])
         rq = sc.reqs[rep["req"]] if rep["req"] < len(sc.reqs) else None
@@ -614,7 +686,7 @@ def reference_content(sc, ref):
 def model_script(sc, ref, log):
     """driver script for one run + the harness lines it has to reproduce.
     Only replies to well-formed requests answered by the application are described."""
-    replies = [r for r in parse_replies(ref.wire, sc.reqs)]
+    replies = [r for r in parse_replies(ref.wire, sc.reqs, sc.readerr)]
     sends = [s for s in log.sys if s["k"] in KIND_SEND]
     # group the system calls by reply: a new reply starts with headers-sending at offset 0
     groups, cur, prev = [], None, None
@@ -666,24 +738,38 @@ def model_script(sc, ref, log):
         footer = b""
         if rep.get("chunked"):
             _, footer = dechunk(rep["wire_body"])
+            if not footer:
+                footer = b"0\r\n\r\n"     # never sent (cut-short reply)
         wbsz = next((int(s["wbsz"]) for s in g if s["st"] in ("chunked-body-ready", "footers-sending")), int(g[0]["wbsz"]))
-        script.append("reply kind=%s hdr=%s body=%s iov=%s known=%d chunked=%d sendbody=%d footer=%s bufsz=%d wbsz=%d cbmax=%d fdoff=%d sf=%s tpc=0"
+        # close-path inputs: was the request presented (the URI log callback makes the library treat it as known to the
+        # application), will the connection be kept, is this an automatic error reply (stop_with_error)
+        aware = 1 if log.uri_logs > rep["req"] else 0
+        reuse = 0 if b"\r\nconnection: close\r\n" in rep["hdr"].lower() else 1
+        stoperr = 1 if (rep["status"] >= 400 and (spec is None or malformed)) else 0
+        script.append("reply kind=%s hdr=%s body=%s iov=%s known=%d chunked=%d sendbody=%d footer=%s bufsz=%d wbsz=%d cbmax=%d fdoff=%d sf=%s tpc=0 aware=%d reuse=%d stoperr=%d"
                       % (kind, hx(rep["hdr"]), hx(body), iov, known, 1 if rep.get("chunked") else 0, 0 if rep["head"] else 1,
-                         hx(footer), bufsz, wbsz, cbmax, fdoff, g[0]["sf"]))
+                         hx(footer), bufsz, wbsz, cbmax, fdoff, g[0]["sf"], aware, reuse, stoperr))
         expect.append(None)
         for j, s in enumerate(g):
             nxt = g[j + 1]["idx"] if j + 1 < len(g) else (groups[gi][0]["idx"] if gi < len(groups) else len(log.lines))
             notready = any(s["idx"] < z < nxt for z in log.reader0)
+            rderr = any(s["idx"] < z < nxt for z in log.reader_err)
             if s["ret"].startswith("E"):
                 ans = ERRNO_NAME.get(int(s["ret"][1:]), "EIO")
             else:
                 ans = "full" if int(s["ret"]) >= int(s["req"]) else "short:%d" % int(s["ret"])
-            script.append("call %s appI=%s" % (ans, "notready" if notready else "ready"))
+            script.append("call %s appI=%s" % (ans, "err" if rderr else "notready" if notready else "ready"))
             expect.append("sys k=%s req=%s st=%s so=%s ao=%s rp=%s is=%s ic=%s ie=%s sf=%s -> %s"
                           % (s["k"], s["req"], s["st"], s["so"], s["ao"], s["rp"], s["is"], s["ic"], s["ie"], s["sf"], s["ret"]))
+            if rderr:
+                # the content reader reported an error after this call: either in the idle part of the same turn
+                # (chunked body) or in the next write turn, which then makes no system call (plain body)
+                script.append("round full appW=err appI=err")
+                expect.append(None)
         script.append("end")
         delivered = sum(int(s["ret"]) for s in g if not s["ret"].startswith("E"))
-        expect.append(("end", delivered, any(s["inj"] != "-" and is_permanent(s["k"], s["inj"]) for s in g)))
+        compl = log.completions[rep["req"]][1] if rep["req"] < len(log.completions) else None
+        expect.append(("end", delivered, any(s["inj"] != "-" and is_permanent(s["k"], s["inj"]) for s in g), compl, aware))
     return script, expect
 
 
@@ -772,17 +858,29 @@ class Spec:
                          "Mhd.C07.transient_never_closes", "Mhd.C07.transient_delivers_all", "Mhd.C07.transient_measure",
                          "Mhd.C07.closed_never_sends", "Mhd.C07.hard_error_closes", "Mhd.C07.sendfile_error_policy",
                          "Mhd.C07.alloc_failure_closes_or_unchanged", "Mhd.C07.alloc_failure_at_start",
-                         "Mhd.C07.alloc_failure_chunk_buffer", "Mhd.C07.upload_prefix"]
+                         "Mhd.C07.alloc_failure_chunk_buffer", "Mhd.C07.upload_prefix",
+                         "Mhd.C07.session_prefix", "Mhd.C07.transient_fair_delivers_all", "Mhd.C07.release_exactly_once",
+                         "Mhd.C07.permanent_failure_releases_once", "Mhd.C07.sendfile_hard_error_closes",
+                         "Mhd.C07.upload_complete", "Mhd.C07.upload_transient_unchanged", "Mhd.C07.upload_closed_stops",
+                         "Mhd.C07.upload_hard_error_closes"]
     trusted_base = ["Lean 4 kernel", "axioms: propext, Classical.choice, Quot.sound at most (audited per theorem)",
                     "hand-written model lean/Mhd/Model/Send.lean + SendConn.lean, tied to mhd_send.c / connection.c by this run's "
                     "call-by-call correspondence under fault injection",
                     "tools/props/C07.py gen_send (errno classification macros, MHD_ERR codes, chunk limits regenerated)",
-                    "harness/h_fault.c (libc interposition, --wrap=malloc/calloc), gcc, ASan/UBSan/LSan"]
+                    "harness/h_fault.c (libc interposition, --wrap=malloc/calloc, white-box read of MHD_Response.reference_count, "
+                    "in-process symbolisation of the failing allocation site), gcc, ASan/UBSan/LSan",
+                    "close-path bookkeeping record `Bk` (Mhd.Model.SendConn): tied to the code by the completion callbacks (count + "
+                    "termination code per request) and the response reference counts of every run; pool destroy/reset and the clean-up "
+                    "list are observed through LeakSanitizer/ASan only"]
     assumptions = ["a stream socket never reports 0 bytes taken for a non-empty request (SockRes.Legal)",
                    "content readers are deterministic in the position and hand out the bytes of the content (scripted application)",
                    "non-TLS build path (vector send); the header-then-body fall-back is modelled and proved but reachable only with TLS",
                    "fault injection of short counts / EAGAIN in epoll mode re-arms the descriptor (EPOLL_CTL_MOD) to supply the edge a real kernel would deliver",
-                   "content length < 2^64-1 (MHD_SIZE_UNKNOWN is the sentinel)"]
+                   "content length < 2^64-1 (MHD_SIZE_UNKNOWN is the sentinel)",
+                   "fairness (transient_fair_delivers_all): after every point of the schedule there is a later round in which the socket is "
+                   "writable, takes at least one byte and the content reader is ready",
+                   "MHD_OPTION_NOTIFY_COMPLETED is set (Bk.notes counts calls of the callback); whether the connection is kept after the "
+                   "reply (`reuse`) and whether the reply is an automatic error reply (`stopErr`) are parameters of the reply description"]
 
     def gen(self, ctx):
         gen_send()
@@ -864,6 +962,16 @@ class Spec:
                         diffs.append("model invariant/fault: " + g[:200])
                     if e[2] and d.get("st") != "closed":
                         diffs.append("model not closed after hard error: " + g[:80])
+                    # close path: once the model's reply is over, its completion notifications (count and termination
+                    # code) are those the application really got for this request; its reference is gone
+                    if d.get("st") in ("closed", "done") and len(e) > 3:
+                        want = [] if (e[3] is None or not e[4]) else [str(e[3])]
+                        got = [] if d.get("notes", "-") == "-" else d["notes"].split(",")
+                        if got != want:
+                            diffs.append("completion notifications: code %s, model %s (state %s)" % (want, got, d.get("st")))
+                        if d.get("drops") != "1" or d.get("held") != "0":
+                            diffs.append("model bookkeeping after the end of the reply: " + g[g.find("notes="):][:100])
+                        res.setdefault(key, {})["book"] = res.get(key, {}).get("book", 0) + 1
                     res.setdefault(key, {})["out"] = res.get(key, {}).get("out", b"") + outb
                 elif g != e:
                     diffs.append("code: '%s'  model: '%s'" % (e, g))
@@ -973,6 +1081,12 @@ class Spec:
             for a, b in lg.fired.items():
                 if a != "allocs":
                     stats["fired"][a] = stats["fired"].get(a, 0) + b
+            if lg.alloc_site:
+                k_ = "%s (%s)" % lg.alloc_site
+                stats.setdefault("alloc_sites", {})[k_] = stats.get("alloc_sites", {}).get(k_, 0) + 1
+            stats["reader_errors"] = stats.get("reader_errors", 0) + len(lg.reader_err)
+            stats["resp_ref_checks"] = stats.get("resp_ref_checks", 0) + len(lg.resp_refs)
+            stats["completions_seen"] = stats.get("completions_seen", 0) + len(lg.completions)
             if lg.closed_before_stop():
                 stats["closed_runs"] += 1
             if lg.wire == ref[s.name].wire:
@@ -1002,6 +1116,7 @@ class Spec:
             stats["model_replies"] += sum(1 for l in sc_ if l.startswith("reply"))
             stats["model_calls"] += sum(1 for l in sc_ if l.startswith("call"))
             r = mres.get(key, {})
+            stats["book_compared"] = stats.get("book_compared", 0) + r.get("book", 0)
             if isinstance(key, int):
                 s, p = plans[key]
                 lg = results[key][0]
@@ -1045,6 +1160,16 @@ class Spec:
                "runs_connection_closed": stats["closed_runs"], "runs_stream_complete": stats["complete_runs"],
                "model_replies_replayed": stats["model_replies"], "model_calls_compared": stats["model_calls"],
                "upload_calls_compared": stats.get("upload_calls", 0),
+               "close_path_replies_compared": stats.get("book_compared", 0),
+               "close_path_note": "replies whose model run ended (closed / done): the model's completion notifications (count + termination "
+                                  "code) equal the completion callbacks the application got for that request",
+               "response_refcount_reads": stats.get("resp_ref_checks", 0),
+               "completion_callbacks_seen": stats.get("completions_seen", 0),
+               "content_reader_errors_fired": stats.get("reader_errors", 0),
+               "alloc_failure_sites": dict(sorted(stats.get("alloc_sites", {}).items())),
+               "alloc_failure_sites_note": "library function whose k-th allocation was made to fail (symbolised in-process), with the libc entry "
+                                           "point; the library calls malloc and calloc only (no realloc; one strdup in postprocessor.c, not reachable here); "
+                                           "allocations of MHD_start_daemon are made before the counter is armed (covered by C09/C20 harnesses)",
                "hdr_body_fallback_cases": stats.get("hab", 0),
                "hdr_body_fallback_note": "exhaustive over 2 header sizes x 3 body sizes x blocking/non-blocking x 14 x 14 answers of the two send() calls; "
                                          "same source text of mhd_send.c compiled without vector send inside the harness",
